@@ -14,4 +14,8 @@ MCChoicesSmall == {{}, {0}}
 
 \* race of two backups with differing sources on the same archive
 MCNeed2      == ("bk1" :> <<"y", "z">>) @@ ("bk2" :> <<"x", "v">>)
+
+\* THREE actors (outside the statements of C06 and C07, which speak of two): a slow backup that needs a
+\* new block, a quick backup, a gc
+MCNeed3      == ("bk1" :> <<"z">>) @@ ("bk2" :> <<"y">>)
 ==============================================================================
